@@ -6,8 +6,9 @@ go/harness/ops_ast.go).  Three transcripts are compared step by step:
   model  - the specification `Tree` (Lean, Model/Ast.lean): the plain ordered tree the property names,
   nodem  - the implementation model `NodeM` (Lean, Model/AstNode.lean).
 Verdict: the property is violated iff sonic differs from `model`.  `nodem` never decides anything; it
-is used (a) to measure the fidelity of the implementation model (evidence only) and (b) to label a
-discrepancy with the mechanism that produces it, which is what the known-finding matchers look at.
+is used (a) to measure the fidelity of the implementation model (evidence only) and (b) to find the
+step at which the real node left the specification when MarshalJSON is only sampled (long sequences).
+NodeM models ast/*.go with the four C15 repairs (patches/C15-*.diff).
 """
 import re
 
@@ -209,24 +210,17 @@ class C15(Spec):
 
     @staticmethod
     def classify(op, a, b, c, fl, st):
-        """label of a discrepancy: a = sonic step, b = specification step, c = NodeM step"""
-        explains = _same(a, c)
+        """label of a discrepancy: a = sonic step, b = specification step, c = NodeM step.
+        NodeM models the code with the four C15 repairs; the only deviation it still has (and the only
+        label that can be matched by a known finding) is `Len()` before the node is loaded."""
         if a[0] == "PANIC":
-            if c[0] == "PANIC" and "i" in fl:
-                return "panic-stale-index"
             return "panic"
         if op == "len" and a[0].startswith("n:") and b[0].startswith("n:") and int(a[0][2:]) < int(b[0][2:]) \
                 and a[1] == b[1] and a[1].startswith("full:") and a[2] in ("_", b[2]):
             # too small now, right once the node is completely loaded (measured on a replayed copy),
             # document unchanged: Len() counted only what had been parsed
             return "len-partial"
-        if explains:
-            if "y" in fl:
-                return "index-incoherent"
-            if "e" in fl and "x" in fl:
-                return "emptykey-deleted"
-            if op == "move" and "x" in fl and "o" in fl:
-                return "move-deleted-oob"
+        if _same(a, c):
             return "obs:" + op
         return "obs:" + op + ":unexplained"
 
